@@ -1056,7 +1056,7 @@ impl Check for C08 {
                 }
             }
             3 => {
-                RX_CELL.with(|c| c.set(if rng.chance(1, 24) { *rng.pick(&[65535usize, 65536, 70_000, 140_000]) } else { *rng.pick(&[64usize, 96, 96, 127, 128, 129, 200]) }));
+                RX_CELL.with(|c| c.set(if rng.chance(1, 24) && !cfg!(miri) { *rng.pick(&[65535usize, 65536, 70_000, 140_000]) } else { *rng.pick(&[64usize, 96, 96, 127, 128, 129, 200]) }));
                 let n = rng.range(1, 3);
                 let mut stream = Vec::new();
                 for _ in 0..n {
@@ -1082,7 +1082,7 @@ impl Check for C08 {
                 STALL_CELL.with(|c| c.set(None));
             }
             _ => {
-                RX_CELL.with(|c| c.set(if rng.chance(1, 24) { *rng.pick(&[65535usize, 65536, 70_000, 140_000]) } else { *rng.pick(&[64usize, 96, 96, 127, 128, 129, 200]) }));
+                RX_CELL.with(|c| c.set(if rng.chance(1, 24) && !cfg!(miri) { *rng.pick(&[65535usize, 65536, 70_000, 140_000]) } else { *rng.pick(&[64usize, 96, 96, 127, 128, 129, 200]) }));
                 let p = rand_valid(&mut rng, false);
                 let mut bytes = rc::encode_server(&p);
                 if let SPacket::ConnAck { .. } = p {
